@@ -91,7 +91,13 @@ Isqrt(k) == IF k <= 0 THEN 0 ELSE IsqrtB(k, 0, 46341)
 
 IsSquare(k) == LET r == Isqrt(k) IN r * r = k
 
-\* floor(1000*sqrt(k)) and a guaranteed upper bound, for k <= 2147
-SqrtMilliLo(k) == Isqrt(k * 1000000)
-SqrtMilliHi(k) == IF IsSquare(k) THEN Isqrt(k) * 1000 ELSE Isqrt(k * 1000000) + 1
+\* guaranteed lower / upper bounds of 1000*sqrt(k): exact to one unit for k <= 2147, coarser (but still
+\* sound) for larger k, where k * 10^6 would overflow TLC's 32-bit integers
+SqrtMilliLo(k) == IF k <= 2147 THEN Isqrt(k * 1000000)
+                  ELSE IF k <= 214748 THEN Isqrt(k * 10000) * 10
+                  ELSE Isqrt(k * 100) * 100
+SqrtMilliHi(k) == IF IsSquare(k) THEN Isqrt(k) * 1000
+                  ELSE IF k <= 2147 THEN Isqrt(k * 1000000) + 1
+                  ELSE IF k <= 214748 THEN (Isqrt(k * 10000) + 1) * 10
+                  ELSE (Isqrt(k * 100) + 1) * 100
 =============================================================================
